@@ -285,7 +285,9 @@ func all(tier string) (sets []*engine.Scenario, bounds []int) {
 	}
 	for _, sc := range c12.Scenarios(tier) {
 		sc.Name = "listeners-" + sc.Name
-		addS(racesOnly(sc), b(2, 3))
+		// besides races: outcomes no sequential order of the calls can give (an accept/read issued
+		// after Close has returned that still delivers; one connection or datagram delivered twice)
+		addS(racesAnd(sc, "call-after-close", "delivered-twice"), b(2, 3))
 	}
 	for _, sc := range c13.RaceScenarios() {
 		sc.Name = "listen-close-" + sc.Name
@@ -322,6 +324,25 @@ func all(tier string) (sets []*engine.Scenario, bounds []int) {
 
 // racesOnly keeps, of another property's scenario, the findings C19 is about: data races,
 // crashes and deadlocks.
+// racesAnd keeps, besides the races, those findings of the scenario's own oracle that say the
+// result equals no sequential order of the calls.
+func racesAnd(sc *engine.Scenario, sigs ...string) *engine.Scenario {
+	inner := sc.Check
+	sc.Check = func(x *vrt.Exec) (string, bool, []*engine.Finding) {
+		obs, nt, fs := inner(x)
+		out := hk.Generic(x, hk.Opts{Races: true})
+		for _, f := range fs {
+			for _, s := range sigs {
+				if f.Sig == s {
+					out = append(out, &engine.Finding{Sig: "not-linearizable{listeners:" + s + "}", Msg: "shared listener: " + f.Msg})
+				}
+			}
+		}
+		return obs, nt, out
+	}
+	return sc
+}
+
 func racesOnly(sc *engine.Scenario) *engine.Scenario {
 	inner := sc.Check
 	sc.Check = func(x *vrt.Exec) (string, bool, []*engine.Finding) {
